@@ -19,7 +19,7 @@ import os
 import traceback
 
 from hypothesis import HealthCheck, Phase, given, seed, settings
-from hypothesis.errors import Unsatisfiable
+from hypothesis.errors import FlakyFailure, Unsatisfiable
 
 from vlib.cli import Rec, Violation, jsonable
 
@@ -112,6 +112,18 @@ def _one_shard(args):
             muted.add(v.signature)
             if rec.is_known(v.signature):
                 continue
+        except FlakyFailure as fl:
+            # the body failed on the generated example but not when Hypothesis re-executed it: the outcome depends on
+            # something outside the case (wall-clock timing of an external program vs. polling). Report what was seen.
+            subs = [e for e in getattr(fl, "exceptions", []) if isinstance(e, Violation)]
+            if subs:
+                v = subs[0]
+                rec.violation(v.signature + ":timing-dependent", "[not reproduced on immediate re-execution] " + v.message,
+                              {"part": name, "case": jsonable(state["last"]), "extra": jsonable(v.extra)})
+                muted.add(v.signature)
+                continue
+            rec.error(f"{name}: flaky failure without an oracle verdict: {fl!r}"[:3000])
+            break
         except Unsatisfiable as e:
             rec.error(f"{name}: generator unsatisfiable: {e}")
             break
